@@ -107,10 +107,10 @@ def natives(I):
         # [(tag, method, args tuple, kwargs dict)] of the calls on external / opaque objects so far
         return [(t, m, tuple(a), dict(k)) for (t, m, a, k) in I.events]
 
-    def uf_str(name, arg):
-        from .values import to_z3_string
-        F = z3.Function(name, z3.StringSort(), z3.StringSort())
-        return SStr([('sym', F(to_z3_string(arg)))])
+    def uf_str(name, *args):
+        zs = _uf_args(args)
+        F = z3.Function(name, *([z.sort() for z in zs] + [z3.StringSort()]))
+        return SStr([('sym', F(*zs))])
 
     def _uf_args(args):
         from .values import to_z3_string
